@@ -633,6 +633,11 @@ func c01Alphabet(full bool) []c01Pair {
 		pFindOneAndUpdate("d", "c", bD("b", "x"), bD("$inc", bD("a", i(10))), bD("a", i(-1)), true, false),
 		pFindOneAndUpdate("d", "c", bD("_id", i(8)), bD("$set", bD("a", i(1))), nil, false, true),
 		pFindOneAndReplace("d", "c", bD("a", bD("$lte", i(2))), bD("a", i(2), "r", i(1)), bD("_id", i(-1)), false, false),
+		// documents inside arrays and arrays inside arrays, written in place through index paths and array filters
+		pInsertOne("d", "c", bD("_id", i(13), "items", bson.A{bD("k", i(1), "q", i(1)), bD("k", i(2), "q", i(2))}, "grid", bson.A{bson.A{i(1), i(2)}, bson.A{i(3), i(4)}})),
+		pUpdate("d", "c", false, bD("_id", i(13)), bD("$set", bD("items.1.q", i(9)), "$inc", bD("grid.1.0", i(5))), false),
+		pUpdateAF("d", "c", true, bD("_id", i(13)), bD("$inc", bD("items.$[e].q", i(1)), "$set", bD("grid.0.$[]", i(0))), []bson.D{bD("e.k", bD("$gte", i(2)))}),
+		pUpdate("d", "c", false, bD("_id", i(13)), bD("$set", bD("items.0.q", i(7), "grid.1.1", i(8)), "$inc", bD("items.1.k", "x")), false),
 		// find-one-and-modify calls that return the new version although nothing changes
 		pFindOneAndUpdate("d", "c", bD("_id", i(1)), bD("$set", bD("b", "x")), nil, true, false),
 		pFindOneAndReplace("d", "c", bD("_id", i(2)), bD("a", i(2), "b", "x"), nil, true, false),
